@@ -119,11 +119,11 @@ def wfuse (x y : BOp α) (ga : α) : Except Label (BOp α) :=
 
 /-- branch tags of `deduce` (for coverage accounting) -/
 inductive DCase where
-  | I | IIA1 | IIA2 | IIB1 | IIB2 | IIIA1 | IIIA2 | IIIB1 | IIIB2
+  | I | Tie | IIA1 | IIA2 | IIB1 | IIB2 | IIIA1 | IIIA2 | IIIB1 | IIIB2
   deriving DecidableEq, Repr, Inhabited
 
 def DCase.toString : DCase → String
-  | .I => "I" | .IIA1 => "II.A.1" | .IIA2 => "II.A.2" | .IIB1 => "II.B.1" | .IIB2 => "II.B.2"
+  | .I => "I" | .Tie => "tie" | .IIA1 => "II.A.1" | .IIA2 => "II.A.2" | .IIB1 => "II.B.1" | .IIB2 => "II.B.2"
   | .IIIA1 => "III.A.1" | .IIIA2 => "III.A.2" | .IIIB1 => "III.B.1" | .IIIB2 => "III.B.2"
 
 /-- the correction term `k` and the case taken, `BOpinion::deduce` (src/bi.rs:261-342).
@@ -138,6 +138,8 @@ def deduceK (w : BOp α) (c0 c1 : α × α × α) (ay : α) : α × DCase :=
   let bp := gt b0 b1
   let dp := gt d0 d1
   if bp == dp then (Scalar.zero, .I)
+  -- a tie in belief or in disbelief (repair 4d5bbb1): decided before the sub-case comparison
+  else if Scalar.eq b0 b1 || Scalar.eq d0 d1 then (Scalar.zero, .Tie)
   else
     let pyx := b0 * w.a + b1 * rvax + ay * (u0 * w.a + u1 * rvax)
     let px := w.projection
